@@ -422,6 +422,15 @@ func runC14(w *World, r *Report) {
 		}
 	}
 
+	// the reflect-based concat functions: what they write into is their own
+	for _, f := range closure {
+		hits := reflectWriteReceiversFromParams(f)
+		for i, h := range hits {
+			r.Fail("C14.inputs-immutable", fmt.Sprintf("%s writes into a reflect.Value reached from its input #%d", w.fname(f), i+1), h.Pos(), "the accumulator is (possibly) an input chunk: "+calleeFullName(h)+" rewrites that chunk in place — the copies of a stream share their chunk objects, so a second consumer concatenating its copy starts from an already-concatenated first chunk (Stream / Collect / Transform give 'xyzyz' where Invoke gives 'xyz')")
+		}
+	}
+	r.OK("C14.inputs-immutable", fmt.Sprintf("reflect accumulators of the %d functions of the concat closure", len(closure)), closure[0].Pos(), "Set / SetMapIndex receivers are created by the function itself")
+
 	// ---- nil-chunk
 	r.Rule("C14.nil-chunk", "ConcatMessages rejects a nil chunk before touching it", 1)
 	{
